@@ -13,6 +13,18 @@ from collections import defaultdict, deque
 # Program model
 # --------------------------------------------------------------------------------------------
 
+def full_range_index(c):
+    """`x[..]`: an Index/IndexMut call whose range operand is RangeFull (the whole view, not a narrowing)"""
+    if c.path not in ("std::ops::Index::index", "std::ops::IndexMut::index_mut") or len(c.args) != 2:
+        return False
+    a = c.args[1]
+    if a.get("k") == "const":
+        return "RangeFull" in str(a.get("ty", "")) or "RangeFull" in str(a.get("txt", ""))
+    if a.get("k") in ("copy", "move") and not a["p"]:
+        return "RangeFull" in c.fn.locals[a["l"]].get("t", "")
+    return False
+
+
 class Call:
     __slots__ = ("fn", "bb", "f", "args", "dest", "target", "ln", "ctx_locals")
 
@@ -804,7 +816,7 @@ class Program:
                     for c in f.calls():
                         if f.blocks[c.bb]["cleanup"]:
                             continue
-                        if c.path in NARROW or c.rpath in NARROW or (c.rkey in nar):
+                        if ((c.path in NARROW or c.rpath in NARROW) and not full_range_index(c)) or (c.rkey in nar):
                             nar.add(k)
                             changed = True
                             break
